@@ -168,6 +168,16 @@ def from_bare(k):
     return [roundtrip(h, h.to_proto(ns["top"]), "bare")]
 
 
+def from_suite(args):
+    """a package exported while the repository's own test-suite ran (harness/suite.py)"""
+    src, raw = args
+    from ..hd import h
+    import vlsir.circuit_pb2 as vckt
+    pkg = vckt.Package()
+    pkg.ParseFromString(raw)
+    return [roundtrip(h, pkg, src)]
+
+
 def run(tier, seed, replay_file=None):
     o = Outcome(PID, tier, seed)
     o.rule = ("packages: valid universe designs (quick: seeded sample), the examples' exported packages, built-in generators, and modules full of "
@@ -187,6 +197,15 @@ def run(tier, seed, replay_file=None):
         evs += out
     for out in pool_map(from_bare, list(range(2))):
         evs += out
+    from .. import suite
+    sjobs = []
+    for r in suite.collect():
+        if r["rc"] not in (0, 5):
+            raise tlc.TlcError(f"test-suite under hooks did not pass: {r['file']}: {r['summary']}")
+        sjobs += [(f"suite:{r['file']}::{t.split('::')[-1]}", raw) for t, raw in r["pkgs"]]
+    for out in pool_map(from_suite, sjobs, chunksize=8):
+        evs += out
+    o.cover["suite_packages"] = len(sjobs)
     for i, e in enumerate(evs):
         e["tid"] = i
     files = tlc.split_batches([[e] for e in evs], WORK / "c11", f"tr-{tier}", NPROC)
@@ -214,7 +233,7 @@ def run(tier, seed, replay_file=None):
                     o.cover["param_" + p["val"]["v"]] = o.cover.get("param_" + p["val"]["v"], 0) + 1
         ok, clause = verdicts[i]
         if not ok:
-            o.violations.append(Violation(clause=clause.split(":")[0], case={"source": e["src"], "P": e["P"]}, features=["src_" + src, clause.split(":")[0]],
+            o.violations.append(Violation(clause=clause.split(":")[0], case={"source": e["src"], "P": e["P"]}, features=["src_" + src, clause.split(":")[0]] + (["source:" + e["src"]] if src == "suite" else []),
                                           detail={"clause": clause, "exc": e["exc"], "P2": e["P2"]} if len(o.violations) < 12 else clause))
     o.distinct_nontrivial = len(seen)
     o.required_cover = ["src_pairs", "src_bare", "src_params", "src_example", "src_U_sig", "conn_slice", "conn_cat", "conn_sig", "param_prefixed", "param_literal", "param_int64", "param_double"]
